@@ -65,7 +65,8 @@ def main(tier, replay=None):
         print(x.res.text_err()[-1500:])
         return 1 if bad else 0
     ALLK = KINDS
-    combos = [(LETTERS, 2, 0, ALLK, True), (LETTERS, 2, 1, ["segv"], False), (["OK", "OK2", "OK3"], 2, 0, ["segv", "exit1"], False)]
+    # cheap combos first so that a deadline (slow machine) cuts the tail of the largest one only
+    combos = [(LETTERS, 2, 1, ["segv"], False), (["OK", "OK2", "OK3"], 2, 0, ["segv", "exit1"], False), (LETTERS, 2, 0, ALLK, True)]
     if tier == "thorough":
         combos = [(LETTERS, 2, 0, ALLK, True), (LETTERS, 2, 1, ALLK, True), (["OK", "OK2", "OK3"], 2, 0, ALLK, True),
                   (LETTERS, 3, 0, ALLK, True), (LETTERS, 3, 1, ALLK, False), (["OK", "OK2", "OK3"], 2, 1, ALLK, False),
@@ -100,6 +101,8 @@ def main(tier, replay=None):
                     plans.append(("%d:%s:segv;%d:%s:exit3" % (a, ka, b, kb), [a, b], 0 if tier == "quick" else 1, "boundary"))
         for ks in ((["0"] * len(ws), ["e"] * len(ws), ["3"] * len(ws)) if multi else []):
             plans.append((";".join("%d:%s:kill" % (w, k) for w, k in zip(ws, ks)), ws, 1, "boundary"))
+        # crash before the first message and crash at exit first (the corner cases), then the rest
+        plans.sort(key=lambda pl: (0 if (":0:" in pl[0] or ":e:" in pl[0]) else 1))
         for fault, crashed, bound, cls in plans:
             if ctx.expired():
                 break
